@@ -353,8 +353,9 @@ fn parse_helper(pat: &mut &str, result: &mut Vec<Atom>) -> Result<(), PatError> 
 			},
 			// End recursive operator
 			b'}' => {
-				// Unbalanced recursion
-				if depth <= 0 {
+				// Unbalanced recursion, an alternative can only close what it opened
+				let floor = subs.last().map_or(0, |sub| sub.depth);
+				if depth <= floor {
 					return Err(PatError::StackError);
 				}
 				depth -= 1;
